@@ -14,6 +14,7 @@ import (
 	"github.com/arm-doe/sts"
 	"github.com/arm-doe/sts/fileutil"
 	"github.com/arm-doe/sts/log"
+	"github.com/arm-doe/sts/verifhook"
 )
 
 const (
@@ -240,6 +241,7 @@ func (s *Stage) initStageFile(path string, size int64) error {
 		if cachedState == stateUnknown || cachedState == stateFailed {
 			s.logDebug("Removing Stale Companion:", path+compExt)
 			os.Remove(path + compExt)
+			verifhook.At("stage.init.rmcmp", "path", path)
 		}
 	}
 	s.logDebug("Making Directory:", filepath.Dir(path))
@@ -302,6 +304,8 @@ func (s *Stage) Receive(file *sts.Partial, reader io.Reader) (err error) {
 		return
 	}
 
+	verifhook.At("stage.recv.written", "path", path, "beg", part.Beg, "end", part.End)
+
 	// Make sure we're the only one updating the companion
 	s.logDebug("Receiving part:", file.Source, file.Name, part.Beg, part.End)
 	defer s.logDebug("Received part:", file.Source, file.Name, part.Beg, part.End)
@@ -325,6 +329,7 @@ func (s *Stage) Receive(file *sts.Partial, reader io.Reader) (err error) {
 		return
 	}
 
+	verifhook.At("stage.recv.recorded", "path", path, "beg", part.Beg, "end", part.End)
 	s.logDebug("Wrote part:", file.Source, file.Name, part.Beg, part.End)
 
 	done := isCompanionComplete(cmp)
@@ -336,6 +341,7 @@ func (s *Stage) Receive(file *sts.Partial, reader io.Reader) (err error) {
 			existing.hash == final.hash {
 			s.logInfo("Ignoring duplicate (receive):", final.name)
 			os.Remove(path + partExt)
+			verifhook.At("stage.recv.dup", "path", path)
 			if existing.state >= stateFinalized {
 				os.Remove(path + compExt)
 				s.delPathLock(path)
@@ -348,8 +354,10 @@ func (s *Stage) Receive(file *sts.Partial, reader io.Reader) (err error) {
 			s.toCache(final, stateFailed)
 			return
 		}
+		verifhook.At("stage.recv.full", "path", path)
 		s.toCache(final, stateReceived)
 		s.logDebug("File received:", cmp.Source, cmp.Name)
+		verifhook.At("stage.enq", "what", "validate", "path", path)
 		go s.processQueue(final)
 	}
 	return
@@ -476,6 +484,8 @@ func (s *Stage) setCanReceive(value bool) {
 // files in the stage area that should be completed from the previous server
 // run
 func (s *Stage) Recover() {
+	verifhook.At("stage.rec.begin", "root", s.rootDir)
+	defer verifhook.At("stage.rec.end", "root", s.rootDir)
 	s.setCanReceive(false)
 	defer s.setCanReceive(true)
 	s.logInfo("Beginning stage recovery")
@@ -545,14 +555,17 @@ func (s *Stage) Recover() {
 	// Build the cache from the incoming log starting at the time of the oldest
 	// companion file found (or "now" if none exists) minus the cache age. Even
 	// if no files are found on the stage, we still want to build the cache.
+	verifhook.At("stage.rec.walked", "root", s.rootDir)
 	s.logDebug("Stage recovery cache build:", oldest.Add(-1*cacheAgeLogged))
 	s.buildCache(oldest.Add(-1 * cacheAgeLogged))
+	verifhook.At("stage.rec.cached", "root", s.rootDir)
 	if len(validate) == 0 && len(finalize) == 0 {
 		return
 	}
 	for _, file := range finalize {
 		finalFile := s.partialToFinal(file)
 		s.toCache(finalFile, stateValidated)
+		verifhook.At("stage.enq", "what", "finalize", "path", finalFile.path)
 		go s.finalizeQueue(finalFile)
 	}
 	if len(validate) > 0 {
@@ -561,6 +574,7 @@ func (s *Stage) Recover() {
 			for f := range ch {
 				finalFile := s.partialToFinal(f)
 				s.toCache(finalFile, stateReceived)
+				verifhook.At("stage.enq", "what", "validate", "path", finalFile.path)
 				s.process(finalFile)
 			}
 		}
@@ -698,6 +712,7 @@ func (s *Stage) cleanStrays(minAge time.Duration) {
 					deleteCmp = compExists
 				}
 			}
+			verifhook.At("stage.clean.stray", "path", filePath, "delete", delete, "deleteCmp", deleteCmp)
 			if delete {
 				if err = os.Remove(partPath); err != nil {
 					s.logError("Failed to remove stray partial:", path, err.Error())
@@ -753,6 +768,7 @@ func (s *Stage) cleanWaiting() {
 					f.wait = nil
 				}
 				f.prev = ""
+				verifhook.At("stage.enq", "what", "finalize", "path", f.path)
 				go s.finalizeQueue(f)
 			}
 		}
@@ -803,6 +819,7 @@ func (s *Stage) processHandler() {
 }
 
 func (s *Stage) process(file *finalFile) {
+	defer verifhook.At("stage.done", "what", "validate", "path", file.path)
 	// s.logDebug("Validating:", file.name)
 	// defer s.logDebug("Validated:", file.name)
 
@@ -828,6 +845,7 @@ func (s *Stage) process(file *finalFile) {
 		return
 	}
 
+	verifhook.At("stage.proc.hashed", "path", file.path, "want", file.hash, "got", hash)
 	valid := file.hash == hash
 
 	if !valid {
@@ -845,8 +863,10 @@ func (s *Stage) process(file *finalFile) {
 		return
 	}
 
+	verifhook.At("stage.proc.wait", "path", file.path)
 	s.toCache(file, stateValidated)
 
+	verifhook.At("stage.enq", "what", "finalize", "path", file.path)
 	go s.finalizeQueue(file)
 }
 
@@ -863,11 +883,13 @@ func (s *Stage) finalizeHandler() {
 		if state := s.getFileState(f.path); state != stateValidated {
 			// Skip redundancies or mistakes in the pipe
 			s.logDebug("Already finalized or not ready:", f.name)
+			verifhook.At("stage.done", "what", "finalize", "path", f.path)
 			continue
 		}
 		if s.isFileReady(f) {
 			s.finalize(f)
 		}
+		verifhook.At("stage.done", "what", "finalize", "path", f.path)
 	}
 }
 
@@ -990,6 +1012,7 @@ func (s *Stage) finalize(file *finalFile) {
 	waiting := s.fromWait(file.path)
 	for _, waitFile := range waiting {
 		s.logDebug("Stage found waiting:", waitFile.name, "<-", file.name)
+		verifhook.At("stage.enq", "what", "finalize", "path", waitFile.path)
 		go s.finalizeQueue(waitFile)
 	}
 }
@@ -1004,6 +1027,7 @@ func (s *Stage) putFileAway(file *finalFile) (targetPath string, err error) {
 	// be no knowledge that the file was received and it would be sent again.
 	s.logger.Received(file)
 	file.logged = time.Now()
+	verifhook.At("stage.put.logged", "path", file.path)
 
 	// Move it
 	targetName := file.name
@@ -1025,6 +1049,7 @@ func (s *Stage) putFileAway(file *finalFile) (targetPath string, err error) {
 			file.nErr++
 			time.AfterFunc(time.Second*time.Duration(file.nErr), func() {
 				s.logDebug("Attempting finalize again after failure:", file.name)
+				verifhook.At("stage.enq", "what", "finalize", "path", file.path)
 				go s.finalizeQueue(file)
 			})
 		}
@@ -1034,12 +1059,16 @@ func (s *Stage) putFileAway(file *finalFile) (targetPath string, err error) {
 		return
 	}
 
+	verifhook.At("stage.put.moved", "path", file.path, "target", targetPath)
+
 	// Only change the state once the file has been successfully moved
 	s.toCache(file, stateFinalized)
+	verifhook.At("stage.put.final", "path", file.path)
 
 	// Clean up the companion (no need to capture an error since it wouldn't
 	// be a deal-breaker anyway)
 	os.Remove(file.path + compExt)
+	verifhook.At("stage.put.rmcmp", "path", file.path)
 	return
 }
 
@@ -1133,6 +1162,7 @@ func (s *Stage) toWait(prevPath string, next *finalFile, howLong time.Duration) 
 		next.wait = time.AfterFunc(howLong, func(handle func(*finalFile), f *finalFile) func() {
 			return func() {
 				s.logDebug("Attempting finalize again:", f.name)
+				verifhook.At("stage.enq", "what", "finalize", "path", f.path)
 				handle(f)
 			}
 		}(s.finalizeQueue, next))
